@@ -241,4 +241,48 @@ theorem PC_flushAtom (R : ViewRel) (s s' : PState) (Q : QFs) (hI : Inv R s (fvOf
         intro e he
         exact ⟨h5a, hC.sst.fl6 hne hge, by rw [h5b]; exact he⟩
 
+theorem PInv_step (R : ViewRel) (s : PState) (Q : QFs) (hI : Inv R s (fvOf Q)) (hP : PInv R s Q) (x : Sched) :
+    PInv R (s.step x).2 (qrun Q (s.step x).1) ∧ noRen (s.step x).1 = true := by
+  cases x with
+  | commit ents rot =>
+    simp only [PState.step]
+    split
+    · refine ⟨⟨hP.fix, hP.sw, hP.qok, ?_⟩, rfl⟩
+      exact PC_commitStart R s _ Q hI hP.core _ (by constructor <;> rfl) rfl
+    · exact ⟨hP, rfl⟩
+  | flushReq =>
+    simp only [PState.step]
+    split
+    · exact ⟨⟨hP.fix, hP.sw, hP.qok, PCore_of_eq R s _ Q hP.core (by constructor <;> rfl)⟩, rfl⟩
+    · exact ⟨hP, rfl⟩
+  | compact ins outs =>
+    simp only [PState.step]
+    split
+    · refine ⟨⟨hP.fix, hP.sw, hP.qok, ?_⟩, rfl⟩
+      refine PC_compactStart R s _ Q hP.core (by constructor <;> rfl) (by show s.nextSst ≤ s.nextSst + outs.length; omega) rfl ?_
+      intro o ho
+      obtain ⟨x, _, he⟩ := List.mem_map.mp ho
+      subst he; rfl
+    · exact ⟨hP, rfl⟩
+  | w =>
+    simp only [PState.step]
+    cases hw : s.wq with
+    | nil => exact ⟨hP, rfl⟩
+    | cons a rest =>
+      simp only
+      have hn := Atom.ops_noRen s a
+      have hc := Atom.eff_cfg s a
+      refine ⟨⟨?_, ?_, QOk_qrun Q hP.qok _ (noRen_spec _ hn), ?_⟩, hn⟩
+      · show (a.eff s).cfg.dirSyncFix = true; rw [hc]; exact hP.fix
+      · show (a.eff s).cfg.syncWrites = true; rw [hc]; exact hP.sw
+      · exact PCore_of_eq R _ _ _ (PC_atom R s Q hI hP a) (by constructor <;> rfl)
+  | f =>
+    simp only [PState.step]
+    cases hf : flushAtom s with
+    | none => exact ⟨hP, rfl⟩
+    | some r =>
+      obtain ⟨ops, s'⟩ := r
+      obtain ⟨h1, h2, h3⟩ := PC_flushAtom R s s' Q hI hP ops hf
+      exact ⟨⟨by rw [h3]; exact hP.fix, by rw [h3]; exact hP.sw, QOk_qrun Q hP.qok _ (noRen_spec _ h2), h1⟩, h2⟩
+
 end Badger
